@@ -40,7 +40,7 @@ def coverage_accounting(agg):
 def tests():
     out = []
     for name, t in sorted(TEMPLATES.items()):
-        out.append(Test("rev:" + name, partial(_body, t), quick=120 * t.weight, thorough=1500 * t.weight, shard_size=200))
+        out.append(Test("rev:" + name, partial(_body, t), quick=200 * t.weight, thorough=1500 * t.weight, shard_size=200))
     out += kinks.tests("rev")
     return out
 
